@@ -162,6 +162,11 @@ func (dm *DMap) deleteKeys(ctx context.Context, keys ...string) (int, error) {
 				return 0, protocol.ConvertError(err)
 			}
 
+			if cmd.Err() == nil {
+				// This group of keys has been deleted by its owner. Continue with the other groups.
+				continue
+			}
+
 			return 0, protocol.ConvertError(cmd.Err())
 		}
 	}
